@@ -326,7 +326,11 @@ func (r *encRun) jsonMembers(keys []string, vals []*encJV, path []int) []map[str
 var encReserved = map[string]bool{"time": true, "logger": true, "level": true, "msg": true, "caller": true}
 
 func encCallerOK(site encSite, file string, line int, fn string) bool {
-	return line == site.line && filepath.Base(file) == filepath.Base(site.file) &&
+	lineOK := line == site.line
+	if site.lineHi > 0 { // the call sits somewhere inside a function whose first / last line are known
+		lineOK = line >= site.line && line <= site.lineHi
+	}
+	return lineOK && filepath.Base(file) == filepath.Base(site.file) &&
 		fn != "" && strings.HasSuffix(site.fn, fn[strings.LastIndex(fn, "/")+1:])
 }
 
@@ -371,6 +375,7 @@ func encObsJSON(r *encRun, payload []byte, site encSite) map[string]any {
 			o["namert"] = v.t == 's' && v.s == r.name
 		case "level":
 			o["lvl"] = v.t == 's' && v.s == slog.Level(r.c.Sev).String()
+			o["lvltext"] = v.s // raw text for the history component (removed before the trace is written)
 		case "time":
 			if v.t != 's' || v.s == "" {
 				top[len(top)-1] = "unknown"
@@ -592,6 +597,7 @@ func encObsLogfmt(r *encRun, payload []byte, site encSite) map[string]any {
 			headq = headq && ps[i].tok.rep == "quoted"
 		case "level":
 			o["lvl"] = ps[i].tok.text == slog.Level(r.c.Sev).String()
+			o["lvltext"] = ps[i].tok.text
 		}
 	}
 	j := len(ps)
